@@ -79,7 +79,7 @@ Lemma chunk_quiet fl st p data mt more :
   (d_open st = None /\ quiet_at st p /\ not_link st p) \/ (d_open st = Some p /\ exists m old, fget (d_fs st) p = Some (NFile m old)) ->
   d_events (fst (doer_exec fl st (CCreateOrUpdateFile p data mt more))) = d_events st.
 Proof.
-  intros Hc. cbn [doer_exec]. destruct (refuses st p); [reflexivity|].
+  intros Hc. cbn [doer_exec]. destruct (blocked_at st p); [reflexivity|]. destruct (refuses st p); [reflexivity|].
   set (st0 := with_failed st (if more then Some p else None)).
   unfold open_for_write.
   change (d_open st0) with (d_open st). change (resolve_above st0 p) with (resolve_above st p). change (d_fs st0) with (d_fs st).
